@@ -598,8 +598,9 @@ class Ctx:
         key = z3.simplify(x).sexpr()
         if key in self.e10_memo:
             return SReal(self.e10_memo[key][1])
-        E = z3.Function('E10', z3.RealSort(), z3.RealSort())
-        t = E(x)
+        # Ackermannised: a fresh real per distinct argument plus pairwise
+        # congruence/monotonicity instances keeps the queries in pure QF_NRA
+        t = self.fresh_real('E10')
         self.assume(t > 0)
         self.axioms_used.add('E10(x) > 0')
         self.assume(z3.Implies(x == 0, t == 1))
@@ -610,9 +611,10 @@ class Ctx:
             self.assume(z3.Implies(x < x2, t < t2))
             self.assume(z3.Implies(x2 < x, t2 < t))
             self.assume(z3.Implies(x == x2, t == t2))
-            self.assume(z3.Implies(x == -x2, t * t2 == 1))
             self.axioms_used.add('E10 strictly monotone (pairwise instances)')
-            self.axioms_used.add('E10(x)*E10(-x) = 1 (pairwise instances)')
+            if self.notes.get('e10_reciprocal'):
+                self.assume(z3.Implies(x == -x2, t * t2 == 1))
+                self.axioms_used.add('E10(x)*E10(-x) = 1 (pairwise instances)')
         self.e10_memo[key] = (x, t)
         return SReal(t)
 
@@ -621,8 +623,7 @@ class Ctx:
         key = z3.simplify(a).sexpr()
         if key in self.l10_memo:
             return SReal(self.l10_memo[key][1])
-        L = z3.Function('L10', z3.RealSort(), z3.RealSort())
-        t = L(a)
+        t = self.fresh_real('L10')
         self.assume(z3.Implies(a == 1, t == 0))
         self.assume(z3.Implies(a > 1, t > 0))
         self.assume(z3.Implies(z3.And(a > 0, a < 1), t < 0))
@@ -960,7 +961,9 @@ class NativeCtx:
 
     def _get(self, name):
         if name not in self.inputs:
-            raise KeyError("replay input %r missing" % name)
+            # the native run took a path the model did not: no reproduction
+            self.mismatch = name
+            raise Abort()
         return self.inputs[name]
 
     def real(self, name, lo=None, hi=None, lo_strict=False, hi_strict=False):
@@ -1006,7 +1009,10 @@ def run_native(fn, inputs, claim=None):
     try:
         fn(ctx)
     except Abort:
-        return False, 'precondition not met natively (inputs %r)' % (inputs,)
+        bad = [(n, d) for n, ok, d in ctx.results if not ok]
+        if bad:
+            return True, 'claims violated before the native run left the modelled path: %r' % (bad[:5],)
+        return False, 'precondition not met natively / native run left the modelled path (missing input %r; inputs %r)' % (getattr(ctx, 'mismatch', None), inputs)
     except Exception as e:  # the implicit no-exception claim
         import traceback
         return True, 'uncaught %s: %s\n%s' % (type(e).__name__, e, traceback.format_exc()[-1500:])
